@@ -185,6 +185,22 @@ def r1(ck: Check, gm: GrowthModel) -> None:
                        f"cannot name, without discarding {', '.join(missing)} first (or testing that the node "
                        f"was already expanded)") if missing else
                       f"mark of `{e.nid}` preceded by reset or already-expanded test on every path")
+                # "already expanded" excuses the reset only for a node that has its own complete successor set: a skip node is
+                # flagged expanded as well, and the attachment gives it successors it did not have
+                if exempt and not missing:
+                    not_skipped = expanded_assertions(fm, e.hk, False, field="skipped")
+                    stale = []
+                    for fld in ATTR_FIELDS:
+                        cuts = [x.cfgn for x in handle_stores(fm, e.hk, fld) if is_none(x.value)] + not_skipped
+                        if _reaches_without(fm, e.cfgn, cuts, loop):
+                            stale.append(fld)
+                    ck.ob("R1", fm, e.stmt, not stale,
+                          f"`{e.nid}`: the data of a skip node is discarded as well" if not stale else
+                          f"`{e.nid}` keeps {', '.join(stale)} when it is already flagged expanded -- which a skip node is (skip_remaining, "
+                          f"skip_to_minimal, expand_minimal_spaces(skip_ignored=True)): the attachment then gives the skip node new "
+                          f"successors while the data computed for its old successor set (every attractor outside the minimal trap "
+                          f"spaces) is still reported, so attractors inside the new successors are counted twice",
+                          key="skip node grows: " + ("a node copied in a loop" if fm.cfg.enclosing_loops(e.cfgn) else "the attachment node"))
 
 
 def _reaches_without(fm: FuncModel, at, cuts, loop) -> bool:
